@@ -306,7 +306,15 @@ pub fn run(cx: &Ctx) {
     cx.label("generated");
     cx.run_pt(&Signs, cx.by(1500, 30000), cx.workers, ill_strategy, "7 kinds of ill-conditioned data x n 1..500 x magnitudes 1e-300..1e150 x merge trees");
     let counts = || {
-        vec(prop_oneof![2 => Just(0u64), 3 => 0u64..10, 2 => 0u64..100000, 1 => 0u64..(1u64 << 40)], 10).prop_map(|counts| Counts { counts })
+        (vec(prop_oneof![2 => Just(0u64), 3 => 0u64..10, 2 => 0u64..100000, 1 => 0u64..(1u64 << 40)], 10), 0u8..4, 0usize..10).prop_map(|(mut counts, mode, keep)| {
+            // mode 0: all samples in a single bin (the extreme of the [0, total/4] range)
+            if mode == 0 {
+                let v = counts[keep].max(1);
+                counts = vec![0; 10];
+                counts[keep] = v;
+            }
+            Counts { counts }
+        })
     };
     cx.run_pt(&BinVar, cx.by(300, 6000), cx.workers, counts, "random counts in a 10-bin histogram built through add, *= and merge");
 }
